@@ -280,13 +280,30 @@ pub fn build_pad(owner: u64, n: u64, sig: &PadSig) -> Scratchpad {
     rmp_serde::from_slice(&bytes).expect("pad from mirror")
 }
 
+/// Transaction ids come in families of three that share owner and content and differ in exactly one other
+/// field: id 3k+1 plain, 3k+2 with one output, 3k+3 with one parent (content byte k+1).
 pub fn tx_content(t: u64) -> [u8; 32] {
-    [t as u8; 32]
+    [(1 + (t.max(1) - 1) / 3) as u8; 32]
+}
+pub fn tx_id(tx: &Transaction) -> u64 {
+    let base = (tx.content[0] as u64).saturating_sub(1) * 3;
+    match (tx.parents.len(), tx.outputs.len()) {
+        (0, 0) => base + 1,
+        (0, 1) => base + 2,
+        (1, 0) => base + 3,
+        _ => 999,
+    }
 }
 pub fn build_tx(d: &TxD) -> Transaction {
     let owner = bls_sk(d.owner).public_key();
     let signer = if d.valid { bls_sk(d.owner) } else { bls_sk(STRANGER) };
-    Transaction::new(owner, vec![], tx_content(d.t), vec![], &signer)
+    let other = bls_sk(50).public_key();
+    let (parents, outputs) = match (d.t.max(1) - 1) % 3 {
+        0 => (vec![], vec![]),
+        1 => (vec![], vec![(other, [0x5a; 32])]),
+        _ => (vec![other], vec![]),
+    };
+    Transaction::new(owner, parents, tx_content(d.t), outputs, &signer)
 }
 
 pub fn op_entry(id: u64) -> Vec<u8> {
@@ -511,7 +528,7 @@ pub fn describe(key: &RecordKey, rec: &Record) -> String {
                 let mut sorted: Vec<(u64, String)> = txs
                     .iter()
                     .map(|t| {
-                        let id = t.content[0] as u64;
+                        let id = tx_id(t);
                         let ok = t.owner.verify(&t.signature, Transaction::bytes_to_sign(&t.owner, &t.parents, &t.content, &t.outputs));
                         (id, format!("{id}{}", if ok { "" } else { "!" }))
                     })
